@@ -260,7 +260,7 @@ def run(ctx):
         plan.append((cfg, "A013", d - 1))
         tasks += [dict(t, alphabet_name="A013") for t in tree.tree_tasks(cfg, ALPHABETS["A013"], d - 1, split=3)]
     for N in (1, 2):
-        for extra in (dict(density=2), dict(density=4), dict(refine=True), dict(constraints=2, discrete=1)):
+        for extra in (dict(density=2), dict(density=4), dict(refine=True), dict(constraints=2, discrete=1), dict(spell="npscalar"), dict(holder="zerod")):
             cfg = dict(N=N, r=2.0, box="B0" if N != 2 else "B1", **extra)
             dd = d - 1
             plan.append((cfg, "A013", dd))
